@@ -68,7 +68,7 @@ def edits(name, tier):
 
 
 def second_edits(name):
-    out = []
+    out = [('remove-an-attribute', _remove_attr)]
     tn, c, st = lib.type_of(name)
     if c:
         for a in c['attrs']:
@@ -90,6 +90,14 @@ def second_edits(name):
         out.append(('remove-first-child', lambda e: e.remove(e.get_children(ordered=False)[0]) if e.get_children(ordered=False) else None))
         out.append(('grandchild-attr', _grandchild_edit))
     return out
+
+
+def _remove_attr(e):
+    for k in list(e.attributes):
+        if ':' not in k and k != 'name':
+            setattr(e, k.replace('-', '_'), None)
+            return
+    return None
 
 
 def _grandchild_edit(e):
@@ -160,8 +168,12 @@ def run_unit(name, tier, seed):
     lang.STATS.clear()
     stats = collections.Counter()
     cands, samples = [], []
-    vs = c08.variants(name, tier)
-    vs = vs[:6 if tier == 'quick' else 40]
+    allv = c08.variants(name, tier)
+    if tier == 'quick':
+        pick = lambda pre, n: [v for v in allv if v[0].startswith(pre)][:n]
+        vs = pick('minimal', 1) + pick('word:', 2) + pick('attr:', 2) + pick('value:', 1)
+    else:
+        vs = allv[:40]
     funcs = set()
     first = True
     for vlabel, spec in vs:
